@@ -246,6 +246,7 @@ def run(tier, seed):
     impl = run_engine(runner, lines)
     model = run_engine(driver_path(), lines) if lean["build_ok"] else {}
     standard_compare(res, cases, impl, model)
+    concurrent_pass(res, RUNNER, lines, cases, impl)
     if tier == "thorough" and lean["build_ok"]:
         okc, out = leanchecker("C07")
         res.extra["leanchecker"] = "ok" if okc else out
